@@ -53,6 +53,21 @@ def shrink(sc, fails):
     return cur
 
 
+def canon_ghost(g):
+    """TimedStore events: endpoint sets of subscription keys sorted, as in the traces."""
+    out = []
+    for ev in g:
+        ev = list(ev)
+        if len(ev) >= 5 and ev[1] in (3, 4) and ev[4] and ev[4][0] == 1:
+            k = list(ev[4])
+            sub = list(k[1])
+            sub[6] = sorted(sub[6], key=sexp.dumps)
+            k[1] = sub
+            ev[4] = k
+        out.append(ev)
+    return out
+
+
 def run_scenarios(ctx, scenarios, check_op, code_names, known_codes=None, kind_of=lambda sc: "generated", what="SD stack"):
     known_codes = known_codes or {}
     impl = []
@@ -87,12 +102,12 @@ def run_scenarios(ctx, scenarios, check_op, code_names, known_codes=None, kind_o
             t2, _, _ = sim.run_impl(small)
             ctx.violation(f"{what}: " + "; ".join(code_names.get(c, f"checker code {c}") for c in sorted(set(bad))),
                           dict(scenario=describe(small), implementation_trace=sexp.dumps(sim.norm(t2))[:20000], checker_codes=bad, original_events=len(sc["events"])))
-        ga, gb = sim.norm(fin[1]), sim.norm(mfin[1])
+        ga, gb = canon_ghost(sim.norm(fin[1])), canon_ghost(sim.norm(mfin[1]))
         fin, mfin = fin[0], mfin[0]
         ctx.notes["call_history_events_compared"] = ctx.notes.get("call_history_events_compared", 0) + len(ga)
         if ga != gb:
             k = next((i for i, (x, y) in enumerate(zip(ga, gb)) if x != y), min(len(ga), len(gb)))
-            ctx.mismatch(f"{what}: the call history of the implementation (queue_send / collector hand-over / send_sd) differs from the model's ghost history",
+            ctx.mismatch(f"{what}: the call history of the implementation (queue_send / collector hand-over / send_sd / TimedStore refresh and expiry) differs from the model's ghost history",
                          dict(scenario=describe(sc), first_difference_at=k,
                               implementation=(sexp.dumps(ga[k])[:1500] if k < len(ga) else "end of history"),
                               model=(sexp.dumps(gb[k])[:1500] if k < len(gb) else "end of history")))
